@@ -49,6 +49,7 @@ type FuncSpec struct {
 	Loops    []*Clause
 	Asserts  []*Clause
 	Sets     []*Clause
+	Assumes  []*Clause
 	Attrs    map[string]bool
 	Trusted  bool
 	File     string
@@ -66,6 +67,12 @@ type GuardSpec struct {
 	ReadSrc, WriteSrc string
 	Pkg               string
 	Group             string
+}
+
+type LockInv struct {
+	Type, Mu, Src, Pkg string
+	Expr               *Expr
+	Havocs             []string
 }
 
 type LockSet struct {
@@ -102,6 +109,7 @@ type SpecDB struct {
 	Funcs     map[string]*FuncSpec
 	Guards    []*GuardSpec
 	LockSets  []*LockSet
+	LockInvs  []*LockInv
 	SpecFuncs map[string]*SpecFunc
 	Axioms    []*Axiom
 	Ghosts    map[string]*GhostVar
@@ -212,6 +220,22 @@ func (db *SpecDB) LoadFile(path string, pkgPath string, trusted bool) error {
 			default:
 				return fail(fmt.Errorf("loop clause must be invariant or decreases"))
 			}
+		case "assume-at":
+			// assume-at call X#k label: expr  -- a rely condition assumed after that call (listed as an assumption)
+			if cur == nil {
+				return fail(fmt.Errorf("clause outside func"))
+			}
+			kind, r2 := splitWord(rest)
+			if kind != "call" {
+				return fail(fmt.Errorf("assume-at supports only call sites"))
+			}
+			sel, r3 := splitWord(r2)
+			label, src := splitLabel(r3)
+			ex, err := ParseExpr(src)
+			if err != nil {
+				return fail(err)
+			}
+			cur.Assumes = append(cur.Assumes, &Clause{Kind: "assume-at", Key: "call " + sel, Label: label, Src: src, Expr: ex, File: path, Line: ln})
 		case "assert-at":
 			if cur == nil {
 				return fail(fmt.Errorf("clause outside func"))
@@ -246,6 +270,28 @@ func (db *SpecDB) LoadFile(path string, pkgPath string, trusted bool) error {
 		case "type":
 			// type T guards f1, f2 by mu [rw]
 			parts := strings.Fields(strings.ReplaceAll(rest, ",", " "))
+			if len(parts) >= 5 && parts[1] == "lock" && parts[3] == "invariant" {
+				// type T lock mu invariant <expr> havocs c1, c2, ...
+				hi := strings.Index(rest, " havocs ")
+				ii := strings.Index(rest, " invariant ")
+				if hi < 0 || ii < 0 || hi < ii {
+					return fail(fmt.Errorf("lock invariant needs: invariant <expr> havocs <list>"))
+				}
+				src := strings.TrimSpace(rest[ii+11 : hi])
+				ex, err := ParseExpr(src)
+				if err != nil {
+					return fail(err)
+				}
+				li := &LockInv{Type: qualifyTypeName(parts[0], pkgPath), Mu: parts[2], Src: src, Expr: ex, Pkg: pkgPath}
+				for _, h := range strings.Split(rest[hi+8:], ",") {
+					if h = strings.TrimSpace(h); h != "" {
+						li.Havocs = append(li.Havocs, h)
+					}
+				}
+				db.LockInvs = append(db.LockInvs, li)
+				cur = nil
+				return nil
+			}
 			if len(parts) == 5 && parts[1] == "lock" && parts[3] == "sets" {
 				db.LockSets = append(db.LockSets, &LockSet{Type: qualifyTypeName(parts[0], pkgPath), Mu: parts[2], Ghost: parts[4]})
 				cur = nil
@@ -314,10 +360,14 @@ func (db *SpecDB) LoadFile(path string, pkgPath string, trusted bool) error {
 				return fail(err)
 			}
 			sf.Pkg = pkgPath
-			if _, ok := db.SpecFuncs[sf.Name]; ok {
+			key := sf.Name
+			if pkgPath != "" {
+				key = pkgPath + "." + sf.Name // spec functions of a package's contract file are local to that package
+			}
+			if _, ok := db.SpecFuncs[key]; ok {
 				return fail(fmt.Errorf("duplicate spec func %s", sf.Name))
 			}
-			db.SpecFuncs[sf.Name] = sf
+			db.SpecFuncs[key] = sf
 			cur = nil
 		case "axiom":
 			label, src := splitLabel(rest)
@@ -332,6 +382,9 @@ func (db *SpecDB) LoadFile(path string, pkgPath string, trusted bool) error {
 			srt, err := ghostSort(strings.TrimSpace(r2))
 			if err != nil {
 				return fail(err)
+			}
+			if old, ok := db.Ghosts[name]; ok && old.Sort != srt {
+				return fail(fmt.Errorf("ghost %s declared with two sorts", name))
 			}
 			db.Ghosts[name] = &GhostVar{Name: name, Sort: srt, Go: strings.TrimSpace(r2)}
 			cur = nil
